@@ -116,6 +116,27 @@ def run(ctx):
             cuts = sorted(set(range(1, len(S), 1460)) | {len(small[k % len(small)][0]) + 2})
             for bs in (64, 4096) if k % 2 else (4096,):
                 yield ("sockreader", {"S": S.hex(), "cuts": cuts, "bufsize": bs, "end": ("close", "timeout", "reset")[k % 3]})
+        # datagram sockets (UDP): one recv() per datagram, messages straddling datagrams; bufsize at least the largest datagram
+        for k in range(40 if not big else 400):
+            S, _ = st.clean_stream(rng, pool, rng.randrange(3, 12), noise_p=0.2)
+            if len(S) < 4:
+                continue
+            ncut = rng.choice((1, 2, 3, 6, 12, len(S) // 3))
+            cuts = sorted(rng.sample(range(1, len(S)), min(len(S) - 1, ncut)))
+            segmax = max(b - a for a, b in zip([0] + cuts, cuts + [len(S)]))
+            yield ("sockreader", {"S": S.hex(), "cuts": cuts, "bufsize": rng.choice((segmax, segmax + 1, 4096, 65535)) if segmax <= 4096 else segmax, "end": ("timeout", "close")[k % 2],
+                                  "dgram": 1, "filter": rng.choice((7, 7, 1, 2, 5))})
+        # sockets with a positive timeout whose frames arrive in pieces, each in time, all of them together taking longer than the timeout
+        longubx = [x[0] for x in st.special_frames(rng) if x[1] == "UBX" and 900 <= len(x[0]) <= 7000]
+        for k in range(4 if not big else 16):
+            S = small[k % len(small)][0] + longubx[k % len(longubx)] + small[(k + 2) % len(small)][0]
+            step = max(1, len(S) // 8)
+            yield ("sockreader", {"S": S.hex(), "cuts": list(range(step, len(S), step)), "bufsize": 4096, "end": "close", "delay": 0.02, "timeout": 0.05,
+                                  "_k": "timed:%d" % k})
+        # text that is fed one byte per recv(): more than a thousand recv() calls before the line ends
+        for k, x in enumerate(y for y in st.special_frames(rng) if 1100 <= len(y[0]) <= 3000 and y[1] in ("NMEA", "NOISE")):
+            S = small[k % len(small)][0] + x[0] + small[(k + 3) % len(small)][0]
+            yield ("sockreader", {"S": S.hex(), "cuts": list(range(1, len(S))), "bufsize": (1, 2, 4096)[k % 3], "end": ("close", "timeout")[k % 2]})
         # status lines of NTRIP casters / HTTP servers in front of the data (text without frame-start bytes), every two-chunk split
         for hdr in (b"ICY 200 OK\r\n", b"ICY 200 OK\r\n\r\n", b"HTTP/1.1 200 OK\r\nNtrip-Version: Ntrip/2.0\r\n\r\n", b"SOURCETABLE 200 OK\r\n", b"HTTP/1.0 200 OK\r\n"):
             S = hdr + small[0][0] + small[1][0] + small[2][0]
